@@ -1,5 +1,6 @@
 import SlipVerif.Lemmas.Equality
 import SlipVerif.Lemmas.HashTable
+import SlipVerif.Lemmas.Types
 /-
   C16 — equality, hashing and type predicates are mutually coherent.
   Theorems about SlipVerif.Model.Equality (the four predicates, `oeq` = slip.ObjectEqual, the
@@ -255,6 +256,24 @@ theorem get_after_rem (per : IsPER eqv) (h : List (Op K V)) (k k2 : K) (he : eqv
 theorem count_after_clr (h : List (Op K V)) : count (run eqv (.clr :: h)) = 0 := by
   simp [run, step, clr, count]
 
+/-- the driver folds a chronological list of operations with `step`; that is `run` of the
+    history (most recent first), so the refinement theorems speak about the states the
+    correspondence harness observes. -/
+theorem foldl_step_eq_run (ops : List (Op K V)) :
+    ops.foldl (step eqv) [] = run eqv ops.reverse := by
+  have h : ∀ (ops : List (Op K V)) (hist : List (Op K V)),
+      ops.foldl (step eqv) (run eqv hist) = run eqv (ops.reverse ++ hist) := by
+    intro ops
+    induction ops with
+    | nil => intro hist; rfl
+    | cons op ops ih =>
+      intro hist
+      have := ih (op :: hist)
+      simp only [List.foldl_cons, List.reverse_cons, List.append_assoc, List.singleton_append]
+      exact this
+  have := h ops []
+  simpa [run] using this
+
 /-- slip's table test `eql` (make-hash-table documents that `eql` is always used) is a legitimate
     test: the refinement theorems apply to the table the driver runs. -/
 theorem eql_isPER : IsPER Equality.eql := ⟨eql_symm, eql_trans⟩
@@ -269,3 +288,47 @@ example : get Equality.eql (run Equality.eql [.put ex5d 2, .put ex5 1]) (.num 11
     get Equality.eql (run Equality.eql [.rem (.num 11 .single 5), .put ex5d 2, .put ex5 1]) ex5 = none := by decide
 
 end SlipVerif.HashTable
+
+namespace SlipVerif.Types
+
+/-! ## type membership, for ANY Hierarchy()/class tables (the obligations over the regenerated
+    tables are in Theorems/GenC16.lean) -/
+
+/-- an object whose type has a Hierarchy() literal satisfies `typep` of its own `type-of` -/
+theorem typep_of_typeof_general (tbl : HierTable) (ty : String) (h : (hierOf tbl ty).isSome = true) :
+    typep tbl ty ty = true := by
+  unfold typep
+  unfold hierOf at h ⊢
+  cases hf : tbl.find? (fun e => e.2.head? == some ty) with
+  | none => simp [hf] at h
+  | some e =>
+    have hh := find_head tbl ty e hf
+    simp only [Option.map_some]
+    cases hl : e.2 with
+    | nil => simp [hl] at hh
+    | cons a l =>
+      simp only [hl, List.head?_cons, Option.some.injEq] at hh
+      simp [hh]
+
+/-- `subtypep` is reflexive on every registered class, whatever the class table -/
+theorem subtype_refl_general (cls : ClassTable) (c : String) (h : registered cls c = true) :
+    subtypep cls c c = true := by
+  unfold subtypep
+  simp only [h, Bool.true_and, Bool.and_self]
+  unfold registered at h
+  unfold precedence
+  cases hc : cls with
+  | nil => simp [hc] at h
+  | cons e l =>
+    simp only [List.length_cons, supers]
+    rw [← hc]
+    cases hl : cls.lookup c with
+    | none => simp [hl] at h
+    | some s =>
+      simp only
+      split <;> simp
+
+example : (hierOf SlipVerif.Gen.Hierarchies.hierarchies "bignum").isSome = true ∧
+    registered SlipVerif.Gen.Hierarchies.classes "bignum" = true := by decide
+
+end SlipVerif.Types
